@@ -98,6 +98,37 @@ def desugar(loc, relfile, fn_paths, rules, _pass=0, optional=()):
                     rewrites.append((a, b, new))
                     records.append({"fn": fp, "rule": "D63 V.retain(|&p| C);  =>  { filtering loop over V into a fresh vector; V = that vector }   (items are Copy, C only reads)",
                                     "original": src[a:b], "rewritten": new})
+            if "D70" in rules:
+                # X.iter().filter_map(|x| { B }).collect::<Vec<T>>()  =>  push loop: let o = { B }; if let Some(v) = o { push(v) }
+                # (B is a block that evaluates to an Option; it may update locals of the enclosing function; no `return`)
+                seg = src[it["start"]:it["end"]]
+                m = re.search(r"([a-z_][a-z_0-9\.]*?)\s*\.iter\(\)\s*\.filter_map\(\|([a-z_][a-z_0-9]*)\|\s*\{", seg)
+                if m:
+                    depth, k = 1, m.end()
+                    while k < len(seg) and depth > 0:
+                        depth += {"{": 1, "}": -1}.get(seg[k], 0)
+                        k += 1
+                    body = seg[m.end():k - 1]
+                    tail = re.match(r"\s*\)\s*\.collect::<(Vec<[^;]+?>)>\(\)", seg[k:])
+                    if tail and not re.search(r"\breturn\b", body):
+                        X, xv, ty = m.group(1), m.group(2), tail.group(1)
+                        new = (f"{{ let mut pv_c: {ty} = Vec::new(); let mut pv_i: usize = 0; while pv_i < {X}.len() {{ let {xv} = &{X}[pv_i]; pv_i += 1; "
+                               f"let pv_o = {{ {body} }}; if let Some(pv_v) = pv_o {{ pv_c.push(pv_v); }} }} pv_c }}")
+                        a0, b0 = it["start"] + m.start(), it["start"] + k + tail.end()
+                        rewrites.append((a0, b0, new))
+                        records.append({"fn": fp, "rule": "D70 X.iter().filter_map(|x| { B }).collect::<Vec<T>>()  =>  { push loop over X: let o = { B }; if let Some(v) = o { push(v) } }",
+                                        "original": src[a0:b0], "rewritten": new})
+                for m2 in re.finditer(r"([a-z_][a-z_0-9]*)\.sort_by\(\|[a-z_]+, [a-z_]+\| [^\n]+\);", seg):
+                    a0, b0 = it["start"] + m2.start(), it["start"] + m2.end()
+                    new = f"pv_sort_by(&mut {m2.group(1)});"
+                    rewrites.append((a0, b0, new))
+                    records.append({"fn": fp, "rule": "D70 V.sort_by(|a, b| E);  =>  pv_sort_by(&mut V);   (a permutation of V: the order itself is not modelled)",
+                                    "original": src[a0:b0], "rewritten": new})
+                for m3 in re.finditer(r"([a-z_][a-z_0-9]*)\.to_vec\(\)", seg):
+                    a0, b0 = it["start"] + m3.start(), it["start"] + m3.end()
+                    new = f"pv_to_vec({m3.group(1)})"
+                    rewrites.append((a0, b0, new))
+                    records.append({"fn": fp, "rule": "D70 S.to_vec()  =>  pv_to_vec(S)   (a vector with the elements of the slice)", "original": src[a0:b0], "rewritten": new})
             if "D68" in rules:
                 # X.iter().filter(|v| C).for_each(|w| { B })  =>  index loop: if C { B }   (v: &&T, w: &T; B a block without return/break/continue)
                 seg = src[it["start"]:it["end"]]
@@ -461,6 +492,15 @@ def desugar(loc, relfile, fn_paths, rules, _pass=0, optional=()):
                     new = (f"let pv_seq_{pat} = {ex}; let mut pv_n_{pat}: usize = 0; while pv_n_{pat} < pv_seq_{pat}.len() {{ let {pat} = pv_seq_{pat}[pv_n_{pat}]; pv_n_{pat} += 1;")
                     rewrites.append((v["call"][0], v["call"][1], new))
                     records.append({"fn": fp, "rule": "D54 for p in E { B } (E a vector handed over by value, copyable items)  =>  let s = E; let mut n = 0; while n < s.len() { let p = s[n]; n += 1; B }",
+                                    "original": src[v["call"][0]:v["call"][1]], "rewritten": new})
+                    continue
+                if v["rule"] == "D69":
+                    g = lambda k: src[v[k][0]:v[k][1]]
+                    recv, init, fpat, fbody, acc, item, body = g("recv"), g("init"), g("fpat"), g("fbody"), g("acc"), g("item"), g("body")
+                    new = (f"{{ let mut pv_acc = {init}; let mut pv_k: usize = 0; while pv_k < {recv}.len() {{ let pv_item = (pv_k, &{recv}[pv_k]); pv_k += 1; "
+                           f"if {{ let {fpat} = &pv_item; {fbody} }} {{ pv_acc = {{ let {acc} = pv_acc; let {item} = pv_item; {body} }}; }} }} pv_acc }}")
+                    rewrites.append((v["call"][0], v["call"][1], new))
+                    records.append({"fn": fp, "rule": "D69 X.iter().enumerate().filter(|(i, _)| C).fold(INIT, |ACC, ITEM| E)  =>  { accumulator loop over (k, &X[k]): if C { acc = E } }   (filter's pattern binds references: `let (i, _) = &item`)",
                                     "original": src[v["call"][0]:v["call"][1]], "rewritten": new})
                     continue
                 if v["rule"] == "D65":
